@@ -86,8 +86,15 @@ def decide(prop, tier, seed):
                 violations.append(f)
     # evidence
     proved, bounded = [], []
+    seen_lemmas = set()
     for r in results:
         for o in r["obligations"]:
+            if o.get("kind") == "ghost lemma":
+                # shared ghost lemmas (spec/*.rs) are re-verified in every unit that includes them: count each once
+                lname = o["name"].split("/", 1)[1]
+                if lname in seen_lemmas and o["ok"]:
+                    continue
+                seen_lemmas.add(lname)
             (bounded if o.get("bounded") else proved).append(o)
     known_obl = {f["obligation"] for _, f in known_hits}
     counted = [o for o in proved if not (o["name"] in known_obl and not o["ok"])]
